@@ -79,6 +79,7 @@ pub fn run(pool: &Pool, tier: &str) -> Outcome {
                     trace: false,
                     pre_image: vec![],
                     faults: vec![],
+                sched: None,
                 }
             })
             .collect();
